@@ -4,26 +4,26 @@ import json, subprocess
 ids=[json.loads(l)['id'] for l in open('/verif/properties.jsonl')]
 commits=subprocess.run("git -C /repo log --format=%h --grep='^verif hooks' ",shell=True,capture_output=True,text=True).stdout.split()
 T={
-"C01":("lock-step reference-model monitor on single MOV steps (real Cpu vs independent H8/300H model), full register/CCR/PC compare, operand windows every step and five-region memory compare every 512 steps","3 C01"),
-"C02":("lock-step reference-model monitor; 8-bit operand spaces exhaustive (x carry-in), 16-bit stratified/exhaustive-by-one-operand, 32-bit carry-chain boundaries + random; all register fields, all 256 CCR","3 C02"),
-"C03":("lock-step reference-model monitor; 8/16-bit operand spaces exhaustive x carry-in, 32-bit boundary/walking-bit/random","3 C03"),
+"C01":("lock-step reference-model monitor on single MOV steps (real Cpu vs independent H8/300H model), full register/CCR/PC compare, operand windows every step and five-region memory compare every 512 steps (after letting peripheral time pass); contiguous program walks in session mode; source-dictionary values/addresses; odd PC, plain-I/O-register background, log/print settings as configuration dimensions","3 C01"),
+"C02":("lock-step reference-model monitor; 8-bit operand spaces exhaustive (x carry-in), 16-bit stratified/exhaustive-by-one-operand, 32-bit carry-chain boundaries + random; all register fields, all 256 CCR; source-dictionary constants as operands and as results; program walks; configuration dimensions as C01","3 C02"),
+"C03":("lock-step reference-model monitor; 8/16-bit operand spaces exhaustive x carry-in, 32-bit boundary/walking-bit/random; source-dictionary constants as operands and as results; program walks; configuration dimensions as C01","3 C03"),
 "C04":("lock-step reference-model monitor; 256 operand values x 8 bits x C exhaustive per form, register/@ERn/@aa:8 operands, full memory compare","3 C04"),
 "C05":("lock-step monitor of Bcc/JMP/BSR/JSR/RTS steps (truth table exhaustive) + session monitor with a shadow call stack over generated call trees","3 C05"),
-"C06":("lock-step monitor of TRAPA/RTE steps and of interrupt acceptance through the interrupt controller + random entry/return walks with a shadow frame stack","3 C06"),
+"C06":("lock-step monitor of TRAPA/RTE steps and of interrupt acceptance through the interrupt controller + random entry/return walks with a shadow frame stack and vector-table maintenance (set_handler call, plain stores); timer flags set at acceptance; plain-I/O-register background","3 C06"),
 "C07":("enumeration of all first words / all second words of multi-word prefixes against an independent encoding table; judged: Ok/Err, consumed length, footprint containment","3 C07"),
 "C08":("lock-step monitor with address-tagged memory (two passes); wrap-heavy base/displacement pools; unmapped EAs must fail","3 C08"),
 "C09":("exhaustive 2^24 sweep of Bus::read/Bus::write against a byte model (classification, tagged write, five-array compare, read-back) + session histories of MOV accesses at region boundaries","3 C09"),
-"C11":("generated ELF32-BE files loaded by the real elf::load; whole-DRAM and canary comparison against an independent layout model","3 C11/C12"),
+"C11":("generated ELF32-BE files loaded by the real elf::load; whole-DRAM and canary comparison against an independent layout model; unusual valid structure (trailing/interleaved non-load headers, nested PT_LOAD, string-table tail sharing, odd symbol names)","3 C11/C12"),
 "C12":("generated ELF32-BE files + argument strings loaded by the real elf::load; registers, argv block followed through DRAM, exit address checked against the layout model","3 C11/C12"),
 "C16":("history checker: bounded-exhaustive sequences of {DDR write, DR write, pin change} through the bus API vs latch/direction/pin model; ioport message log checked after every operation","3 C16"),
-"C17":("history checker with phase inference: update_modules slices + register writes vs tick-by-tick timer model; metamorphic partition comparison","3 C17"),
+"C17":("history checker with phase inference: update_modules slices + register writes vs tick-by-tick timer model; metamorphic partition comparison; long horizons (> 2^32, thorough 2^33 elapsed states on one clock selection); unrelated stores in between","3 C17"),
 "C19":("exhaustive per-area bus-controller setting space on Cpu::calc_state_with_addr vs cost function written from the property text","3 C19"),
-"C20":("lock-step monitor comparing the state count returned by each step with cycle-table x cost-function under 8 bus settings and all placements","3 C20"),
+"C20":("lock-step monitor comparing the state count returned by each step with cycle-table x cost-function under 8 bus settings and all placements; program walks; metamorphic history-independence check for the MES call (no reference number)","3 C20"),
 "C10":("offline checker over the request/entry event log of generated guest programs with injected interrupt schedules (harness stepping loop and the real run() loop), transparency against a request-free run of the same real code","3 C10"),
-"C13":("run-loop tracer (hook at every iteration) against a twin driven by the same real step engine: PC trace, exit/error point, state accounting, sync messages, timer; determinism across repeated runs under host load and the real release binary","3 C13"),
+"C13":("run-loop tracer (hook at every iteration) against a twin driven by the same real step engine: PC trace, exit/error point, state accounting, sync messages, timer; independent time-base oracle over all stamps; state counts preset beyond 2^31/2^32/2^33 (hook); external pin levels; faults directly before the exit address; determinism across repeated runs under host load and the real release binary incl. -w / -i command lines","3 C13"),
 "C14":("monitored TRAPA #0 steps (full state + memory compare, message log) with the console captured from a child process and compared byte for byte; set_handler judged through a later injected interrupt","3 C14"),
-"C15":("panic recorder (catch_unwind + panic hook, child processes for aborts) over all first words x adversarial registers x placements at region ends, fuzzed programs through run(), fuzzed control lines; both build profiles","3 C15"),
-"C18":("in-process run() with a channel-backed socket and hook-delivered line batches vs sequential control-channel model over all partitions; end-to-end TCP transcript check against the release binary with hostile chunking","3 C18"),
+"C15":("panic recorder (catch_unwind + panic hook, child processes for aborts) over all first words x adversarial registers x placements at region ends, fuzzed programs through run(), fuzzed control lines; long texts through the system call; thorough: 2^32 instructions on one machine (ovf), Miri and valgrind passes; both build profiles","3 C15"),
+"C18":("in-process run() with a channel-backed socket and hook-delivered line batches vs sequential control-channel model over all partitions; end-to-end TCP transcript check against the release binary with hostile chunking, over-long lines, field-overflow numbers and idle periods (with control run)","3 C18"),
 }
 import os,re
 src=open('/verif/check').read()
